@@ -363,7 +363,9 @@ def run_check(prop, obligations, tier, level='model_checking', assumptions=None,
                 inconclusive.append({'obligation': ob.name, 'part': r['part'],
                                      'why': 'non-reproducing counterexample(s) only'})
         for r in rs:
-            if r['status'] == 'inconclusive':
+            if r['status'] == 'inconclusive' and ob.bug_hunting_only:
+                pass
+            elif r['status'] == 'inconclusive':
                 inconclusive.append({'obligation': ob.name, 'part': r['part'], 'why': r['detail']})
             elif r['status'] == 'error':
                 harness_errors.append('%s part=%s: %s' % (ob.name, r['part'], r['detail'][-600:]))
